@@ -25,13 +25,13 @@ Definition cmd_eqb (a b : cmd) : bool :=
   | _, _ => false
   end.
 
-(* observed message: is_text, from_client, content, dropped, injected, fragment lengths *)
-Record omsg := mkO { o_text : bool; o_fc : bool; o_content : bytes; o_dropped : bool; o_injected : bool; o_lens : list nat }.
+(* observed message: is_text, from_client, content, dropped, injected, fragment lengths, content before the addon *)
+Record omsg := mkO { o_text : bool; o_fc : bool; o_content : bytes; o_dropped : bool; o_injected : bool; o_lens : list nat; o_orig : bytes }.
 
 Definition msg_eqb (m : wsmessage) (o : omsg) : bool :=
   Bool.eqb (m_text m) (o_text o) && Bool.eqb (m_from_client m) (o_fc o) && bytes_eqb (m_content m) (o_content o)
   && Bool.eqb (m_dropped m) (o_dropped o) && Bool.eqb (m_injected m) (o_injected o)
-  && list_eqb Nat.eqb (m_lens m) (o_lens o).
+  && list_eqb Nat.eqb (m_lens m) (o_lens o) && bytes_eqb (m_orig m) (o_orig o).
 
 Fixpoint msgs_eqb (a : list wsmessage) (b : list omsg) : bool :=
   match a, b with
@@ -48,7 +48,7 @@ Definition closed_eqb (a b : option (bool * N * option str)) : bool :=
 Definition table_addon (post : list (bytes * bool)) : addon_t :=
   fun msgs => match msgs with
               | [] => ([], false)
-              | _ => nth (length msgs - 1) post (m_content (last msgs (mkMsg false false [] false false [])), false)
+              | _ => nth (length msgs - 1) post (m_content (last msgs (mkMsg false false [] false false [] [])), false)
               end.
 
 Inductive case :=
